@@ -201,8 +201,11 @@ pub fn check(o: &FOutcome) -> Checked {
         }
     }
     // --- queuer / sticky: nothing waits in the factory queue while a worker sits idle
-    // (sticky routing is excluded: a queued job whose key is in progress elsewhere legitimately waits for that worker)
-    if router == RouterKind::Queuer && o.cfg.rate.is_none() {
+    // (sticky routing is excluded: queued jobs whose key is in progress elsewhere legitimately wait in the factory queue for that
+    // worker — e.g. 30 same-key jobs behind one busy worker while two others idle; tried again after wave 3, still so)
+    // (scenarios with workers that retire by themselves are left out: a worker in post_stop is alive but takes nothing)
+    let retiring = o.cfg.ops.iter().any(|(_, op)| matches!(op, Op::Dispatch { beh: JBeh::StopSelfAfter, .. }));
+    if router == RouterKind::Queuer && o.cfg.rate.is_none() && !retiring {
         for (ts, depth, active, live, expect) in &barriers {
             if *depth > 0 && *active < (*live).min(*expect) {
                 let stale = gone.iter().any(|g| g.4 && g.0 < *ts);
@@ -236,7 +239,7 @@ pub fn run(args: &Args, rep: &mut Report) {
     };
     for seed in seeds {
         crate::watch_begin(seed);
-        let cfg = if seed % 4 == 0 { gen_cfg_stale_report(seed) } else { gen_cfg(seed, 14) };
+        let cfg = if seed % 4 == 0 { gen_cfg_stale_report(seed) } else if seed % 4 == 1 { gen_cfg_settings(seed) } else { gen_cfg(seed, 14) };
         let o = run_scenario(seed, cfg);
         crate::watch_end();
         let c = check(&o);
